@@ -2,6 +2,7 @@
 
    tag 1 (full scan):  procs resume items* filter perturb ids* err
    tag 2 (scan cut by a cancel issued from a decoder goroutine): procs resume items* at ids* err
+   tag 3 (rich file: every object is a token hashing all its content): procs resume blocks (each a list of tokens) perturb observed-tokens err
    codes: 1 = the model's run (fair round-robin schedule; the delivered sequence is schedule
           independent by theorem C02_delivered_is_prefix + completion) <> observed,
           2 = property oracle fails on the observation, 0 = case does not parse. *)
@@ -35,10 +36,23 @@ Definition check_cut : P (list Z) :=
     ((e =? eCtx) || (complete && (e =? rep_err (final_err inp)))) in
   ret (code_if j2 2)%list.
 
+(* tag 3: "rich" files: blocks are given as lists of content tokens *)
+Definition check_rich : P (list Z) :=
+  n <- pnat ;; resume <- pbool ;; blocks <- plist (plist ptok) ;;
+  perturb <- pint ;; obs <- plist ptok ;; e <- pint ;;
+  let inp := map IBlock blocks in
+  let c := cfg_of_source n inp resume 0 in
+  let fuel := (4 * length blocks + 4 * n + 60)%nat in
+  let '(s, fin) := scan_all c fuel (S (length obs + 2)) (init c) in
+  let j1 := fin && list_eqb Z.eqb (delivered s) obs && (err_value s =? e) in
+  let j2 := wf_cfg c && list_eqb Z.eqb obs (expected inp) && (e =? 0) in
+  ret (code_if j1 1 ++ code_if j2 2)%list.
+
 Definition check_case (t : toks) : list Z :=
   match t with
   | tag :: rest =>
-      let p := if tag =? 2 then check_full else if tag =? 4 then check_cut else pfail in
+      let p := if tag =? 2 then check_full else if tag =? 4 then check_cut
+               else if tag =? 6 then check_rich else pfail in
       match parse_all p rest with Some codes => codes | None => [0] end
   | [] => [0]
   end.
